@@ -439,8 +439,8 @@ pub fn run(args: &Args) {
     let cfg = GenCfg::full();
     let workers = 8; // fixed: the result must not depend on the machine
     for (kind, name, cases) in [
-        (Kind::Executable, "executable", args.tier.pick(4000u32, 120_000)),
-        (Kind::Schema, "schema", args.tier.pick(4000u32, 120_000)),
+        (Kind::Executable, "executable", args.tier.pick(12000u32, 240_000)),
+        (Kind::Schema, "schema", args.tier.pick(12000u32, 240_000)),
     ] {
         samples(&report, kind.name(), &case_strategy(kind, cfg, 4));
         let found = vcore::run_prop_parallel(
